@@ -44,10 +44,10 @@ pub const PROPS: &[PropSpec] = &[
         mix: &[],
         classes: &["read/", "get/", "append/id-not-increasing", "append/fields", "remove/failed", "reopen-failed", "import/rejected-valid"],
         nontrivial: &[&["read:sync", "read:async", "get"], &["remove:live", "gc:step", "gc:drain-nonempty", "import:ok", "clock:edge", "clock:edge+1", "layout:reopened-clean", "layout:reopened-crash", "layout:flushed"]],
-        must_reach: &["read:sync", "read:async", "get", "remove:live", "import:ok", "gc:step", "layout:flushed", "layout:reopened-clean", "layout:reopened-crash", "read:limit-cut", "read:async-backpressure", "layout:tombstone-over-segment"],
+        must_reach: &["read:sync", "read:async", "get", "remove:live", "import:ok", "gc:step", "layout:flushed", "layout:reopened-clean", "layout:reopened-crash", "read:limit-cut", "read:async-backpressure", "layout:tombstone-over-segment", "layout:compacted"],
         quick_runs: 12_000,
         thorough_runs: 400_000,
-        rule: "histories generated from the seed (5-45 operations over append/import/remove/clock/gc-step/gc-drain/flush/reopen and read_sync/read/get/head probes); non-trivial = at least one probe operation and at least one of remove/gc/import/expiry-edge/flush/reopen happened; distinct = distinct hash of the executed operation+decision trace",
+        rule: "histories generated from the seed (5-45 operations over append/import/remove/clock/gc-step/gc-drain/flush/major-compaction/reopen and read_sync/read/get/head probes); non-trivial = at least one probe operation and at least one of remove/gc/import/expiry-edge/flush/reopen happened; distinct = distinct hash of the executed operation+decision trace",
     },
     PropSpec {
         id: "C05",
@@ -132,10 +132,10 @@ pub const PROPS: &[PropSpec] = &[
         mix: &[("e1", 4), ("e4", 1)],
         classes: &["crash/"],
         nontrivial: &[&["cut:inside-operation", "fault:blocking-pool-stalled"]],
-        must_reach: &["image:kill", "image:power-drop", "image:torn", "cut:inside-operation", "cas:sized", "cas:stream", "frame:>8KiB", "remove", "import", "gc:step", "flush", "reopen-in-recording", "fault:blocking-pool-stalled"],
+        must_reach: &["image:kill", "image:power-drop", "image:torn", "cut:inside-operation", "cas:sized", "cas:stream", "frame:>8KiB", "remove", "import", "gc:step", "flush", "compact", "reopen-in-recording", "fault:blocking-pool-stalled"],
         quick_runs: 480,
         thorough_runs: 24_000,
-        rule: "per sampled workload (3-14 sequential operations: append with small / >8KiB / 100KiB frames, both CAS write paths, remove, import, head/time TTL with single collector steps, forced flush, reopen inside the recording) EVERY prefix of the recorded file-operation log is a cut point; per cut a process-kill image plus, where unsynced bytes exist, a power-loss image with all unsynced bytes dropped and 1-2 torn variants; evaluations = workloads, images counted in probes.images; non-trivial = at least one cut fell strictly inside an operation; distinct = distinct workload trace hash",
+        rule: "per sampled workload (3-14 sequential operations: append with small / >8KiB / 100KiB frames, both CAS write paths, remove, import, head/time TTL with single collector steps, forced flush, major compaction on the workload thread, reopen inside the recording) EVERY prefix of the recorded file-operation log is a cut point; per cut a process-kill image plus, where unsynced bytes exist, a power-loss image with all unsynced bytes dropped and 1-2 torn variants; evaluations = workloads, images counted in probes.images; non-trivial = at least one cut fell strictly inside an operation; distinct = distinct workload trace hash",
     },
     PropSpec {
         id: "C13",
